@@ -143,7 +143,35 @@ def make(bootstrap):
         b: str = "b"
         c: int = 2
 
-    ns = {c.__name__: c for c in (P, C, PC, R, M, HC, HD, HZ, HL, KF, KL, OL, NI, K, KD, O)}
+    @spec_class(**kw)
+    class NIS(NI):  # spec subclass of a class with an init=False attribute (which has a default)
+        b: str = "nb"
+
+    @spec_class(**kw)
+    class NIR(NI):  # re-defaults the inherited init=False attribute (no annotation): it stays init=False
+        h = 8
+        b: str = "nb"
+
+    @spec_class(**kw)
+    class PF:
+        a: int = Attr(default_factory=lambda: 11)
+        b: str = "b"
+
+    @spec_class(do_not_copy=True, **kw)
+    class FD(PF):  # changes do_not_copy: inherited default factories survive
+        c: int = 3
+
+    @spec_class(key="b", **kw)
+    class KRP:
+        b: str
+        a: int = 0
+
+    @spec_class(key="b", **kw)
+    class KR(KRP):  # restates the key and gives it a default: optional
+        b = "x"
+        c: int = 4
+
+    ns = {c.__name__: c for c in (P, C, PC, R, M, HC, HD, HZ, HL, KF, KL, OL, NI, K, KD, O, NIS, NIR, FD, KR)}
     return ns
 
 
@@ -168,6 +196,10 @@ REF = {
     "K": dict(attrs=[("b", str, ND), ("a", int, 0), ("c", int, 4)], key="b"),
     "KD": dict(attrs=[("b", str, "dflt"), ("a", int, 0), ("c", int, 4)], key="b"),
     "O": dict(attrs=[("a", int, 1), ("b", str, "b"), ("c", int, 2)], overflow="extra"),
+    "NIS": dict(attrs=[("a", int, 1), ("h", int, 5), ("c", int, 2), ("b", str, "nb")], noninit={"h"}),
+    "NIR": dict(attrs=[("a", int, 1), ("h", int, 8), ("c", int, 2), ("b", str, "nb")], noninit={"h"}),
+    "FD": dict(attrs=[("a", int, 11), ("b", str, "b"), ("c", int, 3)]),
+    "KR": dict(attrs=[("b", str, "x"), ("a", int, 0), ("c", int, 4)], key="b"),
 }
 UNKNOWN = ["zz", "with_a", "_priv", "h2"]
 
@@ -280,7 +312,7 @@ def obligations(tier):
     T = 200 if tier == "quick" else 900
     for fam in ("eager", "lazy"):
         for cname in REF:
-            if tier == "quick" and fam == "lazy" and cname in ("PC", "R", "M", "KD", "NI", "HZ", "OL", "KF"):
+            if tier == "quick" and fam == "lazy" and cname in ("PC", "R", "M", "KD", "NI", "HZ", "OL", "KF", "NIR", "FD"):
                 continue
             obs.append(Ob(f"C09.{fam}.{cname}", make_h(fam, cname), _warm(), f"hierarchy {cname} ({fam} bootstrap); keyword presence bits for a, b, c; values conforming symbolic (int / str) or from a non-conforming pool; key passed positionally or by name; one unknown keyword from {UNKNOWN}; init=False attribute passed by name", expect={"ok"}, timeout=T))
     return obs
